@@ -37,6 +37,9 @@ pub struct SinkPlan {
     /// buffer pool, a fixed table) meets its exhausted path only here.
     #[serde(default, skip_serializing_if = "Option::is_none")]
     pub reentrant_depth: Option<u32>,
+    /// (trait, `+`, precision) the re-entrant renderings are made with; absent = plain `{}`
+    #[serde(default, skip_serializing_if = "Option::is_none")]
+    pub reentrant_spec: Option<(Tr, bool, Option<usize>)>,
 }
 
 /// Deepest re-entrancy a plan may ask for (bounds the stack a step needs).
@@ -47,7 +50,11 @@ pub const MAX_REENTRANT_DEPTH: u32 = 160;
 struct NestSink<'b> {
     remaining: u32,
     inner: &'b TwoFloat,
-    outs: &'b mut Vec<(bool, String)>,
+    outs: &'b mut Vec<(bool, String, u64)>,
+    /// the same high word with a low word of -0.0: levels alternate between the two, so that
+    /// neighbouring live renderings differ in their sign character
+    inner_neg: &'b TwoFloat,
+    spec: (Tr, bool, Option<usize>),
     data: String,
     first: bool,
 }
@@ -57,11 +64,13 @@ impl Write for NestSink<'_> {
         if self.first {
             self.first = false;
             if self.remaining > 0 {
-                let mut n = NestSink { remaining: self.remaining - 1, inner: self.inner, outs: &mut *self.outs, data: String::new(), first: true };
-                let r = write!(n, "{}", self.inner);
+                let neg = self.remaining % 2 == 1;
+                let x = if neg { self.inner_neg } else { self.inner };
+                let mut n = NestSink { remaining: self.remaining - 1, inner: self.inner, inner_neg: self.inner_neg, outs: &mut *self.outs, spec: self.spec, data: String::new(), first: true };
+                let r = render_tf(&mut n, x, self.spec.0, self.spec.1, self.spec.2);
                 let text = std::mem::take(&mut n.data);
                 drop(n);
-                self.outs.push((r.is_ok(), text));
+                self.outs.push((r.is_ok(), text, if neg { SIGN } else { 0 }));
             }
         }
         self.data.push_str(s);
@@ -72,6 +81,9 @@ impl Write for NestSink<'_> {
 impl SinkPlan {
     pub fn depth(&self) -> u32 {
         self.reentrant_depth.unwrap_or(1).clamp(1, MAX_REENTRANT_DEPTH)
+    }
+    pub fn spec(&self) -> (Tr, bool, Option<usize>) {
+        self.reentrant_spec.unwrap_or((Tr::Display, false, None))
     }
     pub fn is_faulty(&self) -> bool {
         self.fail_at_chunk.is_some() || self.capacity.is_some() || self.reentrant_hi.is_some()
@@ -120,7 +132,7 @@ pub struct SimSink<'a> {
     /// (high word, fmt result ok, text) of the rendering the sink made re-entrantly
     pub reentered_output: Option<(u64, bool, String)>,
     /// (fmt result ok, text) of every deeper rendering of the same value (innermost first)
-    pub reentered_nested: Vec<(bool, String)>,
+    pub reentered_nested: Vec<(bool, String, u64)>,
     pub log: Hash64,
     pub sig: Hash64,
 }
@@ -160,8 +172,10 @@ impl Write for SimSink<'_> {
                 if f64::from_bits(h).is_finite() {
                     let inner = raw_twofloat(h, 0);
                     let mut outs = Vec::new();
-                    let mut scratch = NestSink { remaining: self.plan.depth() - 1, inner: &inner, outs: &mut outs, data: String::new(), first: true };
-                    let r = write!(scratch, "{}", inner);
+                    let spec = self.plan.spec();
+                    let inner_neg = raw_twofloat(h, SIGN);
+                    let mut scratch = NestSink { remaining: self.plan.depth() - 1, inner: &inner, inner_neg: &inner_neg, outs: &mut outs, spec, data: String::new(), first: true };
+                    let r = render_tf(&mut scratch, &inner, spec.0, spec.1, spec.2);
                     let text = std::mem::take(&mut scratch.data);
                     drop(scratch);
                     self.reentered = true;
@@ -561,7 +575,11 @@ pub fn execute(c: &FmtCase) -> LegReport {
         }
         // the rendering made re-entrantly from inside the sink is held to the same oracle
         if let Some((h, ok, text)) = sink.reentered_output.take() {
-            let inner = FmtCase { hi: h, lo: 0, tr: Tr::Display, plus: false, prec: None, sink: SinkPlan::default(), io: None, flags: None };
+            let (itr, iplus, iprec) = c.sink.spec();
+            if c.sink.reentrant_spec.is_some() {
+                rep.probes.hit("sink_reentrant_with_spec");
+            }
+            let inner = FmtCase { hi: h, lo: 0, tr: itr, plus: iplus, prec: iprec, sink: SinkPlan::default(), io: None, flags: None };
             if !ok {
                 rep.violations.push(viol("FMT_SPURIOUS_ERR", "a rendering made re-entrantly from inside the sink (into a String) returned Err"));
             } else {
@@ -581,7 +599,8 @@ pub fn execute(c: &FmtCase) -> LegReport {
             }
             rep.steps += nested.len() as u64;
             let total = nested.len() + 1;
-            for (i, (ok, text)) in nested.into_iter().enumerate() {
+            for (i, (ok, text, lo)) in nested.into_iter().enumerate() {
+                let inner = FmtCase { lo, ..inner.clone() };
                 let live = total - i + 1; // renderings live when this one ran, the outer one included
                 if !ok {
                     rep.violations.push(viol("FMT_SPURIOUS_ERR", format!("a re-entrant rendering into a String returned Err with {live} renderings live on the thread")));
@@ -774,15 +793,20 @@ pub fn generate(r: &mut Rng, hi: u64, lo: u64) -> FmtCase {
         if r.chance(1, 6) {
             c.sink.reentrant_depth = Some(*r.pick(&[2u32, 3, 4, 8, 16, 32, 41, 48, 64, 96, 128]));
         }
+        if r.chance(1, 3) && c.prec.map_or(true, |p| p <= 64) {
+            // the re-entrant renderings use the spec of the outer one instead of plain `{}`
+            c.sink.reentrant_spec = Some((c.tr, c.plus, c.prec));
+        }
         if r.bool() {
             return c;
         }
     }
     let reentrant = c.sink.reentrant_hi.clone();
     let depth = c.sink.reentrant_depth;
+    let rspec = c.sink.reentrant_spec;
     match r.below(3) {
-        0 => c.sink = SinkPlan { fail_at_chunk: Some(r.usize_below(nchunks)), capacity: None, sticky, reentrant_hi: reentrant.clone(), reentrant_depth: depth },
-        1 => c.sink = SinkPlan { fail_at_chunk: None, capacity: Some(r.usize_below(nbytes)), sticky, reentrant_hi: reentrant.clone(), reentrant_depth: depth },
+        0 => c.sink = SinkPlan { fail_at_chunk: Some(r.usize_below(nchunks)), capacity: None, sticky, reentrant_hi: reentrant.clone(), reentrant_depth: depth, reentrant_spec: rspec },
+        1 => c.sink = SinkPlan { fail_at_chunk: None, capacity: Some(r.usize_below(nbytes)), sticky, reentrant_hi: reentrant.clone(), reentrant_depth: depth, reentrant_spec: rspec },
         _ => {
             c.sink = SinkPlan {
                 fail_at_chunk: Some(r.usize_below(nchunks)),
@@ -790,6 +814,7 @@ pub fn generate(r: &mut Rng, hi: u64, lo: u64) -> FmtCase {
                 sticky,
                 reentrant_hi: reentrant,
                 reentrant_depth: depth,
+                reentrant_spec: rspec,
             }
         }
     }
@@ -851,8 +876,11 @@ pub fn shrink(c: &FmtCase) -> Vec<FmtCase> {
     push(&|d| d.sink = SinkPlan::default());
     push(&|d| {
         d.sink.reentrant_hi = None;
-        d.sink.reentrant_depth = None
+        d.sink.reentrant_depth = None;
+        d.sink.reentrant_spec = None
     });
+    push(&|d| d.sink.reentrant_spec = None);
+    push(&|d| d.sink.reentrant_spec = d.sink.reentrant_spec.map(|(t, _, _)| (t, false, None)));
     push(&|d| d.sink.reentrant_depth = None);
     for div in [2u32, 4] {
         push(&|d| d.sink.reentrant_depth = d.sink.reentrant_depth.map(|k| (k - k / div).max(1)));
